@@ -19,6 +19,7 @@ import (
 //verif:harness prop=C08,C15 tier=quick replay=native require=failed bounds="3 deposits to distinct accounts with arbitrary 128-bit amounts (sums may exceed 2^128); contract payouts < 2^40"
 func VerifH_C08_fund_overflow() {
 	w := newHostWorld(1)
+	hostFaultsOff = true
 	var deposits []proto4.AccountDeposit
 	for i := 0; i < 3; i++ {
 		amt := types.NewCurrency(vapi.U64("lo"), vapi.U64("hi"))
